@@ -327,6 +327,8 @@ struct RareSeeds {
     acc_eq_qm1: Option<u64>,
     rej_eq_2p23m1: Option<u64>,
     rej_topbit_only: Option<u64>,
+    /// some RejBoundedPoly needs a third SHAKE256 block (> 272 bytes): only eta = 4 can
+    bounded_third_block: Option<u64>,
 }
 
 /// sampler-only model runs over counter seeds until a seed is found for each rare RejNTTPoly event
@@ -334,8 +336,8 @@ fn find_rare_seeds(p: &'static Params, verif_seed: u64, cap: u64) -> RareSeeds {
     let mut out = RareSeeds::default();
     let chunk = 2048u64;
     let mut base = 0;
-    while base < cap && (out.rej_eq_q.is_none() || out.acc_eq_qm1.is_none() || out.rej_eq_2p23m1.is_none()) {
-        let hits: Vec<(u64, bool, bool, bool)> = (base..base + chunk)
+    while base < cap && (out.rej_eq_q.is_none() || out.acc_eq_qm1.is_none() || out.rej_eq_2p23m1.is_none() || (p.eta == 4 && out.bounded_third_block.is_none())) {
+        let hits: Vec<(u64, bool, bool, bool, bool)> = (base..base + chunk)
             .into_par_iter()
             .map(|i| {
                 let xi = alpha::counter32(verif_seed, "rare", i);
@@ -349,10 +351,25 @@ fn find_rare_seeds(p: &'static Params, verif_seed: u64, cap: u64) -> RareSeeds {
                         let _ = refmodel::rej_ntt_poly_stats(&rp, &mut st);
                     }
                 }
-                (i, st.rejected.contains(&refmodel::Q), st.max_accepted == refmodel::Q - 1, st.rejected.contains(&0x7F_FFFF))
+                // ExpandS byte consumption (rho' is bytes 32..96 of the same hash)
+                let seed128 = refmodel::h(&[&xi, &[p.k as u8], &[p.l as u8]], 128);
+                let mut third = false;
+                if p.eta == 4 {
+                    for r in 0..p.l + p.k {
+                        let mut rp = seed128[32..96].to_vec();
+                        rp.extend_from_slice(&(r as u16).to_le_bytes());
+                        let mut bs = refmodel::BoundedStats::default();
+                        let _ = refmodel::rej_bounded_poly_stats(p.eta, &rp, &mut bs);
+                        third |= bs.bytes_used > 272;
+                    }
+                }
+                (i, st.rejected.contains(&refmodel::Q), st.max_accepted == refmodel::Q - 1, st.rejected.contains(&0x7F_FFFF), third)
             })
             .collect();
-        for (i, a, b, c) in hits {
+        for (i, a, b, c, d) in hits {
+            if d && out.bounded_third_block.is_none() {
+                out.bounded_third_block = Some(i);
+            }
             if a && out.rej_eq_q.is_none() {
                 out.rej_eq_q = Some(i);
             }
@@ -483,7 +500,7 @@ fn keygen_case(api: &'static SetApi, xi: &[u8; 32], class: &str) -> (Option<Viol
 
 pub fn c04(cx: &Ctx, rep: &mut Report) {
     rep.rule = "seeds: 0^32, FF^32, 256 one-hot, counter seeds, plus model-selected seeds (sampler-only reference runs pick the first counter seed whose ExpandA meets a 3-byte candidate = q, a maximal accepted value q-1, a candidate 2^23-1); each through keygen_from_seed and try_keygen_with_rng; oracle = byte equality with reference KeyGen_internal (pk and sk), RNG log, struct equality of both entry points, determinism. Non-trivial = structured (extremal / one-hot) or model-selected seed, or counter seed whose key meets a Power2Round tie / t1 = 1023 (classified by the model).".into();
-    let ncounter = cx.tier.pick(48u64, 4096);
+    let ncounter = cx.tier.pick(256u64, 32768);
     let cap = cx.tier.pick(40_000u64, 2_000_000);
     for api in APIS {
         let p = api.p;
@@ -495,7 +512,11 @@ pub fn c04(cx: &Ctx, rep: &mut Report) {
             seeds.push((alpha::counter32(cx.seed, "seed", i), "counter".into()));
         }
         let rare = find_rare_seeds(p, cx.seed, cap);
-        for (name, s) in [("rej_candidate=q", rare.rej_eq_q), ("accepted=q-1", rare.acc_eq_qm1), ("rej_candidate=2^23-1", rare.rej_eq_2p23m1)] {
+        let mut wanted = vec![("rej_candidate=q", rare.rej_eq_q), ("accepted=q-1", rare.acc_eq_qm1), ("rej_candidate=2^23-1", rare.rej_eq_2p23m1)];
+        if p.eta == 4 {
+            wanted.push(("RejBoundedPoly-needs-third-SHAKE-block", rare.bounded_third_block));
+        }
+        for (name, s) in wanted {
             match s {
                 Some(i) => seeds.push((alpha::counter32(cx.seed, "rare", i), format!("model_selected:{name}"))),
                 None => rep.caps_hit.push(format!("ML-DSA-{}: no seed with {name} within {cap} sampler-only runs", p.id)),
